@@ -55,6 +55,30 @@ def SOp.apply (o : Opts) : SOp → Cif → Cif
 /-- the trace replayed on the documented data model, oldest call first (`ops` is kept newest first) -/
 def replay (o : Opts) (ops : List SOp) (pre : Cif) : Cif := ops.foldr (fun op c => op.apply o c) pre
 
+/-! ### the values of a trace -/
+
+mutual
+  /-- no number object anywhere in the value: the parser builds character values (numbers are recognised lazily, on demand, by
+      cif_value_get_number), unknown / not-applicable values, lists and tables -/
+  def numbFree : V → Bool
+    | .numb .. => false
+    | .lst vs => numbFreeList vs
+    | .tbl es => numbFreeEntries es
+    | _ => true
+  def numbFreeList : List V → Bool
+    | [] => true
+    | v :: vs => numbFree v && numbFreeList vs
+  def numbFreeEntries : List (Str × Str × V) → Bool
+    | [] => true
+    | (_, _, v) :: es => numbFree v && numbFreeEntries es
+end
+
+/-- the values a recorded call hands to the store -/
+def SOp.values : SOp → List V
+  | .setVal _ _ v => [v]
+  | .addPkt _ vals => vals
+  | _ => []
+
 /-! ### the instrumented monad -/
 
 structure WT where
